@@ -64,7 +64,7 @@ func (m *machine) call(fn *ssa.Function, args []value, bind []value, pos token.P
 		return r
 	}
 	if fn.Blocks == nil {
-		if fn.Pkg != nil {
+		if fn.Pkg != nil && !m.inInit {
 			m.st.unsupported["nobody:"+name]++
 		}
 		panic(abortPath{"unsupported:nobody:" + name})
